@@ -1,4 +1,4 @@
-import ScnVerif.Lemmas.Cif
+import ScnVerif.Lemmas.CifBuilder
 /-!
 # C14 — CIF output is valid CIF 1.1 and parses back to exactly what was supplied
 
@@ -6,10 +6,11 @@ Objects: the writer model `Model/Cif/Writer.lean` + `Model/Cif/Builder.lean` (a 
 `src/scippneutron/io/cif.py`, compared byte for byte with the implementation on every run) and the
 independent CIF 1.1 reader `Model/Cif/Parser.lean` (`tokenize`, `parseToks`).
 
-The theorems are about the writer **after the proposed repair of `_quotes_for_string_value` and of
-the file heading** (`Variant.fixed`; `proposed_fixes/C14-*.patch`).  The code as it stands
-(`Variant.asCoded`) does *not* satisfy them: `ascoded_…` below are proved counterexamples, one per
-defect class, and the check re-finds each of them on the real code.
+The theorems are about **the code as it stands** (`Variant.current`; the quoting decision and the
+file heading were repaired in commits 667eecd and 0de43de, found by this check), and the harness
+compares the implementation with that model unconditionally.  `Variant.beforeFix` is kept only for
+the regression counterexamples `before_fix_…` below: one proved counterexample per former defect
+class, so that a regression contradicts a theorem and not only the correspondence.
 
 The one class no quoting decision can repair — a multi-line value with a line beginning with `;`,
 which CIF 1.1 cannot represent — is excluded by the decidable predicate `Benign`; the full statement
@@ -58,7 +59,7 @@ def FullValueRoundtrip : Prop :=
   ∀ s : Str, (∀ c ∈ s, (32 ≤ c ∧ c ≤ 126) ∨ c = 9 ∨ c = 10) →
     ∃ v, tokenize (fmtE s ++ [10]) = [.value v] ∧ strip v = strip s
 
-/-- … is false of the writer, repaired or not: `"x\n;y"` closes its own text field
+/-- … is false of the writer, before and after the repair: `"x\n;y"` closes its own text field
 (`C14:text-field-self-terminates`; CIF 1.1 has no representation for this value) -/
 theorem full_value_roundtrip_false : ¬ FullValueRoundtrip := by
   intro h
@@ -68,49 +69,49 @@ theorem full_value_roundtrip_false : ¬ FullValueRoundtrip := by
   simp at hv
 
 /-- `Benign` is exactly "no end-of-line is followed by `;`" and is inhabited by non-trivial strings,
-including every class the code as it stands gets wrong -/
+including every class the code got wrong before 667eecd -/
 example : Benign (ofString "a\nb; c\n ;d") ∧ ¬ Benign (ofString "a\n;b") := by decide
 example : ∀ s ∈ ["_abc", "#abc", "$x", "[a]", "]", "loop_", "Data_1", "global_", "stop_", "save_x", "a\tb", ";abc", "",
       "it's", "say \"x\"", "'a' \"b\"", "a\nb", "x;y", "a' b", "\\xb5"].map ofString,
     ValueOk s ∧ tokenize (fmtE s ++ [10]) = [.value (tokenValue s)] := by decide
 
-/-! ### the code as it stands: one proved counterexample per defect class
-(`writePair Variant.asCoded` is `Chunk.write` of one pair with today's `_quotes_for_string_value`) -/
+/-! ### regression counterexamples: the code before 667eecd / 0de43de, one per former defect class
+(`writePair Variant.beforeFix` is `Chunk.write` of one pair with the old `_quotes_for_string_value`) -/
 
 /-- `_abc` is read back as a tag -/
-theorem ascoded_leading_underscore :
-    tokenize (writePair Variant.asCoded (ofString "k", ofString "_abc")) = [.tag (ofString "k"), .tag (ofString "abc")] := by
+theorem before_fix_leading_underscore :
+    tokenize (writePair Variant.beforeFix (ofString "k", ofString "_abc")) = [.tag (ofString "k"), .tag (ofString "abc")] := by
   decide
 /-- `#abc` is read back as a comment: the value is lost -/
-theorem ascoded_hash :
-    tokenize (writePair Variant.asCoded (ofString "k", ofString "#abc")) = [.tag (ofString "k")] := by decide
+theorem before_fix_hash :
+    tokenize (writePair Variant.beforeFix (ofString "k", ofString "#abc")) = [.tag (ofString "k")] := by decide
 /-- `$x` and `[a]` are reserved in CIF 1.1 -/
-theorem ascoded_dollar_bracket :
-    tokenize (writePair Variant.asCoded (ofString "k", ofString "$x")) = [.tag (ofString "k"), .bad 2]
-    ∧ tokenize (writePair Variant.asCoded (ofString "k", ofString "[a]")) = [.tag (ofString "k"), .bad 3] := by decide
+theorem before_fix_dollar_bracket :
+    tokenize (writePair Variant.beforeFix (ofString "k", ofString "$x")) = [.tag (ofString "k"), .bad 2]
+    ∧ tokenize (writePair Variant.beforeFix (ofString "k", ofString "[a]")) = [.tag (ofString "k"), .bad 3] := by decide
 /-- reserved words are read back as keywords -/
-theorem ascoded_reserved_word :
-    tokenize (writePair Variant.asCoded (ofString "k", ofString "loop_")) = [.tag (ofString "k"), .loop]
-    ∧ tokenize (writePair Variant.asCoded (ofString "k", ofString "Data_1")) = [.tag (ofString "k"), .data (ofString "1")]
-    ∧ tokenize (writePair Variant.asCoded (ofString "k", ofString "global_")) = [.tag (ofString "k"), .bad 6] := by decide
+theorem before_fix_reserved_word :
+    tokenize (writePair Variant.beforeFix (ofString "k", ofString "loop_")) = [.tag (ofString "k"), .loop]
+    ∧ tokenize (writePair Variant.beforeFix (ofString "k", ofString "Data_1")) = [.tag (ofString "k"), .data (ofString "1")]
+    ∧ tokenize (writePair Variant.beforeFix (ofString "k", ofString "global_")) = [.tag (ofString "k"), .bad 6] := by decide
 /-- a tab splits the value in two -/
-theorem ascoded_tab :
-    tokenize (writePair Variant.asCoded (ofString "k", ofString "a\tb"))
+theorem before_fix_tab :
+    tokenize (writePair Variant.beforeFix (ofString "k", ofString "a\tb"))
       = [.tag (ofString "k"), .value (ofString "a"), .value (ofString "b")] := by decide
 /-- `;abc` is put at the start of a line by `Chunk.write` and opens a text field that swallows what follows -/
-theorem ascoded_semicolon :
-    tokenize (writePair Variant.asCoded (ofString "k", ofString ";abc") ++ writePair Variant.asCoded (ofString "z", ofString "end"))
+theorem before_fix_semicolon :
+    tokenize (writePair Variant.beforeFix (ofString "k", ofString ";abc") ++ writePair Variant.beforeFix (ofString "z", ofString "end"))
       = [.tag (ofString "k"), .bad 8] := by decide
 /-- `save_cif` writes a non-ASCII file comment as it is -/
-theorem ascoded_heading_not_ascii : ¬ Ascii (fileHeading Variant.asCoded [181]) := by decide
+theorem before_fix_heading_not_ascii : ¬ Ascii (fileHeading Variant.beforeFix [181]) := by decide
 
 /-! ## 2. pairs, loops, comments -/
 
 /-- a key–value pair is read back as its tag followed by its value (the text field is put on its own
 line by `Chunk.write`) -/
 theorem pair_roundtrip (k raw : Str) (hk : TagOk k) (hv : ValueOk (encodeNonAscii raw)) :
-    Piece (writePair Variant.fixed (k, raw)) [.tag k, valueTok raw]
-      ∧ tokenize (writePair Variant.fixed (k, raw)) = [.tag k, valueTok raw] :=
+    Piece (writePair Variant.current (k, raw)) [.tag k, valueTok raw]
+      ∧ tokenize (writePair Variant.current (k, raw)) = [.tag k, valueTok raw] :=
   ⟨piece_pair k raw hk hv, (piece_pair k raw hk hv).tokenize⟩
 
 example : TagOk (ofString "audit.creation_method") ∧ ValueOk (encodeNonAscii (ofString "written by 'scippneutron'\n ;-)")) := by
@@ -120,8 +121,8 @@ example : TagOk (ofString "audit.creation_method") ∧ ValueOk (encodeNonAscii (
 read back as `loop_`, its tags in order, and its values row by row — in the table layout and in the
 flat layout (which is chosen as soon as any formatted value contains `;`) -/
 theorem loop_roundtrip (l : Loop) (h : LoopOk l) :
-    Piece (l.write Variant.fixed) ([.loop] ++ l.columns.map (fun c => .tag c.1) ++ l.rowMajor.map valueTok)
-      ∧ tokenize (l.write Variant.fixed) = [.loop] ++ l.columns.map (fun c => .tag c.1) ++ l.rowMajor.map valueTok :=
+    Piece (l.write Variant.current) ([.loop] ++ l.columns.map (fun c => .tag c.1) ++ l.rowMajor.map valueTok)
+      ∧ tokenize (l.write Variant.current) = [.loop] ++ l.columns.map (fun c => .tag c.1) ++ l.rowMajor.map valueTok :=
   ⟨piece_loop l h, (piece_loop l h).tokenize⟩
 
 /-- row-major order of an `n × m` loop: `n·m` values, and row `i` is the `i`-th entry of every column -/
@@ -135,7 +136,7 @@ def exLoop : Loop :=
   ⟨ofString "made up\n_tag x", [(ofString "a", [ofString "water\nand salt", ofString "_x"]),
                                  (ofString "b", [ofString "loop_", ofString ";"])], none⟩
 
-example : LoopOk exLoop ∧ LoopRect exLoop 2 ∧ tokenize (exLoop.write Variant.fixed)
+example : LoopOk exLoop ∧ LoopRect exLoop 2 ∧ tokenize (exLoop.write Variant.current)
       = [.loop, .tag (ofString "a"), .tag (ofString "b"), .value (ofString " water\nand salt"), .value (ofString "loop_"),
          .value (ofString "_x"), .value (ofString ";")] := by
   refine ⟨by decide, ⟨by decide, by decide, by decide⟩, by decide⟩
@@ -153,8 +154,8 @@ example : tokenize (writeComment (ofString "_a b\r\ndata_x\x0bloop_\n; '")) = []
 its items in order — pairs with their values, loops with their tags and their values row by row -/
 theorem block_roundtrip (ordered : List Schema) (b : Block) (h : BlockOk ordered b)
     (hs : ∀ it ∈ b.content, ItemShape it) :
-    Piece (b.writeWith Variant.fixed ordered) (blockToks ordered b)
-      ∧ parseToks (tokenize (b.writeWith Variant.fixed ordered)) = some [blockP ordered b] := by
+    Piece (b.writeWith Variant.current ordered) (blockToks ordered b)
+      ∧ parseToks (tokenize (b.writeWith Variant.current ordered)) = some [blockP ordered b] := by
   refine ⟨piece_block ordered b h, ?_⟩
   rw [(piece_block ordered b h).tokenize]
   have := parse_docToks [(ordered, b)] (by simpa using hs)
@@ -178,13 +179,13 @@ theorem document_roundtrip (comment : Str) (blocks : List (List Schema × Block)
 /-- the executable `save_cif` of the model (the function compared with the implementation) produces
 `docText`; `CIF.save` of the builder model is `save_cif` of the assembled block by definition -/
 theorem save_cif_is_document (core : Schema) (comment : Str) (blocks : List (Block × List Nat)) (t : Str)
-    (h : saveCif Variant.fixed core comment blocks = some t) :
+    (h : saveCif Variant.current core comment blocks = some t) :
     t = docText comment (blocks.map (fun bp => (orderedOf core bp.1 bp.2, bp.1))) :=
   saveCif_docText core comment blocks t h
 
 theorem builder_save_is_save_cif (k : Consts) (date : Str) (perm : List Nat) (b : Builder) :
-    (b.save Variant.fixed k date perm).1
-      = saveCif Variant.fixed k.core (encodeNonAscii b.comment) [(b.block k date, perm)] := rfl
+    (b.save Variant.current k date perm).1
+      = saveCif Variant.current k.core (encodeNonAscii b.comment) [(b.block k date, perm)] := rfl
 
 /-- non-vacuity: a hostile two-block document satisfies the hypotheses and reads back -/
 def exCore : Schema := ⟨ofString "coreCIF", ofString "3.3.0", ofString "https://x/cif_core.dic"⟩
@@ -220,19 +221,19 @@ theorem ascii_only (comment : Str) (blocks : List (List Schema × Block))
 /-- **only the CIF 1.1 character set**: if the supplied text (comments, names, values, schema fields)
 consists of printable ASCII, tab, newline and arbitrary non-ASCII code points, and the tags of
 printable ASCII, then every character written is printable ASCII, HT or LF/CR -/
-theorem valid_characters_only (comment : Str) (blocks : List (List Schema × Block)) (hc : Dom comment)
+theorem valid_characters_only (comment : Str) (blocks : List (List Schema × Block)) (hc : DomComment comment)
     (hd : ∀ ob ∈ blocks, BlockDom ob.1 ob.2) : ∀ c ∈ docText comment blocks, validChar c = true :=
   valid_doc comment blocks hc hd
 
 /-- **the complete reader** (`parseCif` = character set + tokenizer + parser, the function the harness
 runs on the text produced by the implementation) returns exactly the supplied structure -/
 theorem document_roundtrip_complete_reader (comment : Str) (blocks : List (List Schema × Block))
-    (hc : Dom comment) (hd : ∀ ob ∈ blocks, BlockDom ob.1 ob.2) (h : ∀ ob ∈ blocks, BlockOk ob.1 ob.2)
+    (hc : DomComment comment) (hd : ∀ ob ∈ blocks, BlockDom ob.1 ob.2) (h : ∀ ob ∈ blocks, BlockOk ob.1 ob.2)
     (hs : ∀ ob ∈ blocks, ∀ it ∈ ob.2.content, ItemShape it) :
     parseCif (docText comment blocks) = some (blocks.map (fun ob => blockP ob.1 ob.2)) :=
   parseCif_doc comment blocks hc hd h hs
 
-example : Dom (ofString "file\ncomment \xb5") ∧ BlockDom [exCore] exBlock1 ∧ BlockDom [] exBlock2 :=
+example : DomComment (ofString "file\r\ncomment \xb5\x0b") ∧ BlockDom [exCore] exBlock1 ∧ BlockDom [] exBlock2 :=
   ⟨by decide, ⟨by decide, by decide, by decide, by decide⟩, ⟨by decide, by decide, by decide, by decide⟩⟩
 
 /-- `_encode_non_ascii` yields ASCII for every string and is idempotent (a comment passes through it
@@ -242,6 +243,151 @@ theorem encode_ascii_idempotent (s : Str) :
   ⟨ascii_encode s, encode_idempotent s⟩
 
 example : encodeNonAscii [181, 8232, 128512] = ofString "\\xb5\\u2028\\U0001f600" := by decide
+
+/-! ## 4b. line terminators in comments, Unicode in any position -/
+
+/-- **comments never leak, whatever the line terminator**: for every comment string — with bare CR,
+CRLF, VT, FF, FS, GS, RS, NEL, LS, PS or anything else — what `_write_comment` writes yields no
+token, ends at the start of a line, and contains no line terminator of `str.splitlines` other than
+the `\n` the writer itself puts after each `# …` line (in particular no CR, which CIF 1.1 reads as
+an end of line) -/
+theorem comment_never_leaks_any_line_terminator (c : Str) :
+    tokenize (writeComment c) = [] ∧ Piece (writeComment c) []
+      ∧ ∀ ch ∈ writeComment c, isLineBreak ch = true → ch = 10 :=
+  ⟨(piece_comment c).tokenize, piece_comment c, writeComment_breaks c⟩
+
+example : ∀ sep ∈ [[13], [13, 10], [11], [12], [28], [29], [30], [133], [8232], [8233]],
+    tokenize (writeComment (ofString "first" ++ sep ++ ofString "data_x _t 'v'")) = [] := by decide
+
+/-- regression counter-model (seeded change C14_5): a `_write_comment` that treats only LF as a line
+break, `comment.rstrip('\n').replace('\n', '\n# ')`, leaks the text after a bare CR -/
+def writeCommentLfOnly (c : Str) : Str :=
+  [35, 32] ++ ((c.reverse.dropWhile (· == 10)).reverse).flatMap (fun ch => if ch = 10 then [10, 35, 32] else [ch]) ++ [10]
+
+theorem lf_only_comment_leaks :
+    tokenize (writeCommentLfOnly (ofString "first\rdata_x")) = [.data (ofString "x")] := by decide
+
+/-- **only printable ASCII, tab and newline are written**, for arbitrary Unicode input: if the
+supplied text (file comment, block names and comments, item comments, every value *in every
+position* — plain `str` in a chunk, scalar Variable, element of a loop column — and schema fields)
+consists of printable ASCII, tab, newline and arbitrary non-ASCII code points, and the tags of
+printable ASCII, then every character of the document is printable ASCII, tab or newline (no CR, no
+other control character, nothing ≥ 128) -/
+theorem ascii_only_document (comment : Str) (blocks : List (List Schema × Block)) (hc : DomC printableNl comment)
+    (hd : ∀ ob ∈ blocks, BlockDomP printableNl ob.1 ob.2) :
+    ∀ c ∈ docText comment blocks, (32 ≤ c ∧ c ≤ 126) ∨ c = 9 ∨ c = 10 := by
+  intro c hcm
+  have := all_doc acceptsPrintable_printableNl comment blocks hc hd c hcm
+  simp only [printableNl, Bool.or_eq_true, Bool.and_eq_true, decide_eq_true_eq, beq_iff_eq] at this
+  rcases this with (h | h) | h
+  · exact Or.inl h
+  · exact Or.inr (Or.inl h)
+  · exact Or.inr (Or.inr h)
+
+/-- every element of every loop column is escaped: the same `formatValue` serves all containers
+(seeded change C14_6 escaped only plain `str` values) -/
+theorem loop_values_escaped (l : Loop) (h : LoopDomP printableNl l) : All printableNl (l.write Variant.current) :=
+  all_loop acceptsPrintable_printableNl Variant.current l h
+
+example : LoopDomP printableNl ⟨ofString "Å", [(ofString "audit_author.name", [ofString "Jürgen Müller", ofString "Åsa"])], none⟩
+    ∧ BlockDomP printableNl [exCore] exBlock1 :=
+  ⟨by decide, ⟨by decide, by decide, by decide, by decide⟩⟩
+
+/-! ## 4c. standard-uncertainty columns -/
+
+/-- **which tokens stand under which tag in the reduced-powder loop**: the loop built by
+`_make_reduced_powder_loop` has exactly the columns `point_id`, the coordinate, *the coordinate's*
+standard uncertainties under the coordinate's tag + `_su` (iff the coordinate has variances), the
+intensities, *the intensities'* standard uncertainties under the intensity tag + `_su` (iff the data
+have variances), and these five tags are pairwise distinct.  The harness supplies
+`d.coordSu = str(sqrt(var))` of the coordinate and `d.valuesSu` of the data, so a mix-up of the two
+(seeded change C14_4) contradicts this theorem together with the text equality. -/
+theorem su_column_is_sqrt_variance (k : Consts) (d : PowderData) (comment : Str) (l : Loop)
+    (h : reducedPowderLoop k d comment = .ok l) :
+    ∃ cn dn, powderNames d = .ok (cn, dn) ∧ cn ∈ coordNames ∧ dn ∈ dataNames
+      ∧ l.columns = [(ofString "pd_data.point_id", d.pointIds), (cn, d.coord)]
+          ++ (match d.coordSu with | some su => [(suffixSu cn, su)] | none => [])
+          ++ [(dn, d.values)]
+          ++ (match d.valuesSu with | some su => [(suffixSu dn, su)] | none => [])
+      ∧ [ofString "pd_data.point_id", cn, suffixSu cn, dn, suffixSu dn].Nodup :=
+  powder_columns k d comment l h
+
+/-- the calibration loop: the `coeff_su` column is the supplied uncertainty tokens of the coefficients -/
+theorem calibration_su_column (k : Consts) (powers coeffs : List Str) (su : Option (List Str)) (comment : Str) :
+    (calibrationLoop k powers coeffs su comment).columns =
+      [(ofString "pd_calib_d_to_tof.id", powers.map calibId), (ofString "pd_calib_d_to_tof.power", powers),
+       (ofString "pd_calib_d_to_tof.coeff", coeffs)]
+      ++ (match su with | some s => [(ofString "pd_calib_d_to_tof.coeff_su", s)] | none => []) := rfl
+
+def exPowder : PowderData :=
+  ⟨ofString "tof", ofString "µs", [], ofString "counts", false, [ofString "0", ofString "1"],
+   [ofString "1.2", ofString "1.4"], some [ofString "0.1", ofString "0.2"], [ofString "13.6", ofString "26.0"],
+   some [ofString "0.9", ofString "1.0"]⟩
+
+example : (reducedPowderLoop ⟨exCore, exCore, []⟩ exPowder (ofString "c")).toOption.map (·.columns.map (·.1)) =
+    some ([ "pd_data.point_id", "pd_meas.time_of_flight", "pd_meas.time_of_flight_su", "pd_proc.intensity_norm",
+            "pd_proc.intensity_norm_su"].map ofString) := by decide
+
+/-! ## 4d. the high-level builder -/
+
+/-- **round trip of the high-level builder.**  Take any builder object: `CIF(name, comment=…)`
+followed by any chain of `with_authors`, `with_reducers`, `with_beamline`,
+`with_reduced_powder_data`, `with_powder_calibration`, `copy`, name and comment assignments and
+`save` calls (a builder object in a branching call history is reached by the chain of its own
+ancestry; `save` only advances the id counter, about which `role_ids_wellformed` speaks).  If the
+string arguments of the calls satisfy the value hypothesis `CallOk` (no carriage return, no line
+after the first beginning with `;`, printable ASCII / tab / newline / any non-ASCII code point; authors
+have a name; number columns are `n ≥ 1` tokens each; the name is accepted by the setter and not
+empty), then whatever `CIF.save` writes is read by the complete reader (`parseCif`: character set,
+tokenizer, parser) as exactly one block: the block the builder assembled (`Builder.block`: audit
+chunk, reducers, authors and roles with their ids, content in call order) with its schema loop in the
+order written — and consists of printable ASCII, tab and newline only. -/
+theorem builder_document_roundtrip (k : Consts) (hk : k.Ok printableNl) (date : Str) (hd : StrOk printableNl date)
+    (name comment : Str) (hn : NameArgOk printableNl name) (hc : DomC printableNl comment)
+    (calls : List Call) (hcalls : ∀ c ∈ calls, CallOk printableNl c) (perm : List Nat) (t : Str)
+    (ht : ((calls.foldl (Builder.apply k) (Builder.new name comment)).save Variant.current k date perm).1 = some t) :
+    let b := calls.foldl (Builder.apply k) (Builder.new name comment)
+    parseCif t = some [blockP (orderedOf k.core (b.block k date) perm) (b.block k date)]
+      ∧ All printableNl t :=
+  builder_roundtrip k hk date hd name comment hn hc calls hcalls perm t ht
+
+/-- non-vacuity: a chain with hostile strings satisfies the hypotheses and `save` produces a text -/
+def exConsts : Consts := ⟨exCore, ⟨ofString "pdCIF", ofString "2.5.0", ofString "https://x/cif_pow.dic"⟩, ofString "25.1.0+g1"⟩
+def exPerson (name role : String) (corr : Bool) : Person := ⟨ofString name, [], ofString "Lund; SE", [], ofString role, corr⟩
+def exCalls : List Call :=
+  [.withAuthors [exPerson "Jürgen #1" "_measurement" true, exPerson "loop_" "" false, exPerson "a\tb" "data\n reduction" false],
+   .withReducers [ofString ";abc", ofString "$x"], .setComment (ofString "first\rdata_x"),
+   .withBeamline (ofString "DREAM") (some (ofString "ESS")) none (ofString "_x y"),
+   .withReducedPowderData exPowder (ofString "made up"), .copy, .save (ofString "d") [0, 1],
+   .withPowderCalibration [ofString "0", ofString "1.5"] [ofString "1.2", ofString "4.5"] none []]
+
+example : exConsts.Ok printableNl ∧ StrOk printableNl (ofString "2026-10-01T12:00:00+00:00")
+    ∧ NameArgOk printableNl (ofString "my/name") ∧ ∀ c ∈ exCalls, CallOk printableNl c := by
+  refine ⟨⟨⟨by decide, by decide⟩, ⟨by decide, by decide⟩, by decide⟩, by decide, ⟨by decide, by decide, by decide, by decide⟩, ?_⟩
+  have hp : ∀ n r c, StrOk printableNl (ofString n) → StrOk printableNl (ofString r) → ofString n ≠ [] →
+      PersonOk printableNl (exPerson n r c) :=
+    fun n r c h1 h2 h3 => ⟨h3, h1, (by decide : StrOk printableNl []), (by decide : StrOk printableNl (ofString "Lund; SE")),
+      (by decide : StrOk printableNl []), h2⟩
+  intro c hc
+  simp only [exCalls, List.mem_cons, List.not_mem_nil, or_false] at hc
+  rcases hc with rfl | rfl | rfl | rfl | rfl | rfl | rfl | rfl
+  · intro a ha
+    simp only [List.mem_cons, List.not_mem_nil, or_false] at ha
+    rcases ha with rfl | rfl | rfl
+    · exact hp _ _ _ (by decide) (by decide) (by decide)
+    · exact hp _ _ _ (by decide) (by decide) (by decide)
+    · exact hp _ _ _ (by decide) (by decide) (by decide)
+  · exact (by decide : ∀ r ∈ [ofString ";abc", ofString "$x"], StrOk printableNl r)
+  · exact (by decide : DomC printableNl (ofString "first\rdata_x"))
+  · exact ⟨by decide, fun x hx => by cases hx; decide, by decide⟩
+  · exact ⟨⟨2, by decide, by decide, by decide, by decide,
+      fun su hs => by cases hs; decide, by decide, fun su hs => by cases hs; decide⟩, by decide⟩
+  · trivial
+  · trivial
+  · exact ⟨2, by decide, by decide, by decide, by decide, fun s hs => by cases hs⟩
+
+example : (((exCalls.foldl (Builder.apply exConsts) (Builder.new (ofString "my/name") (ofString "c"))).save
+    Variant.current exConsts (ofString "2026-10-01T12:00:00+00:00") [1, 0]).1).isSome = true := by decide +kernel
 
 /-! ## 5. author-role ids -/
 
